@@ -6,7 +6,7 @@
    Base is a definition so that the law check (MC_BigNat.cfg) can run with a
    tiny base, which makes every carry/borrow path reachable with small numbers
    that TLC can compare against its own arithmetic.                            *)
-EXTENDS Integers, Sequences
+EXTENDS Integers, Sequences, TLC
 
 Base == 32768
 
@@ -71,7 +71,7 @@ DivModN(a, b) ==
 (* 2^k as naturals, k = 0..64 *)
 RECURSIVE Pow2Nr(_)
 Pow2Nr(k) == IF k = 0 THEN <<1>> ELSE LET p == Pow2Nr(k - 1) IN AddN(p, p)
-Pow2N == [k \in 0..64 |-> Pow2Nr(k)]
+Pow2N == [k \in 0..64 |-> Pow2Nr(k)] @@ <<>>    \* tabulated once (see FixedWidth.Tabulated)
 
 (* (a & b) /= 0 : some bit set in both.  Limbs are below 2^15. *)
 RECURSIVE LimbAndNZ(_, _)
